@@ -124,6 +124,32 @@ Definition jdec (data : string) : option string :=
        | EmptyString => None
        end.
 
+(* the concrete codec satisfies the one law the C12 theorems assume *)
+Lemma last_char_app_q : forall s, last_char (s ++ String dquote EmptyString) = Some dquote.
+Proof.
+  induction s as [|c s IH]; [reflexivity|].
+  simpl. destruct (s ++ String dquote EmptyString)%string eqn:E.
+  - destruct s; discriminate.
+  - exact IH.
+Qed.
+
+Lemma drop_last_app_q : forall s, drop_last (s ++ String dquote EmptyString) = s.
+Proof.
+  induction s as [|c s IH]; [reflexivity|].
+  simpl. destruct (s ++ String dquote EmptyString)%string eqn:E.
+  - destruct s; discriminate.
+  - rewrite IH. reflexivity.
+Qed.
+
+Lemma jdec_jenc : forall s, jdec (jenc s) = Some s.
+Proof.
+  intros s. unfold jdec, jenc. cbn [append].
+  change (String.eqb (String dquote (s ++ String dquote EmptyString)) "null") with false.
+  cbn [Ascii.eqb]. change (Ascii.eqb dquote dquote) with true. cbv iota.
+  rewrite last_char_app_q. change (Ascii.eqb dquote dquote) with true. cbv iota.
+  rewrite drop_last_app_q. reflexivity.
+Qed.
+
 (* ------------------------------------------------------- model observation *)
 
 Definition the_gen (c : case) : option gen := generate (c_pkg c) (c_type c) (c_flags c).
